@@ -353,6 +353,11 @@ def _compose(case, ctx):
                         ctx.violation(f"deredden:{method}", f"n={n} window={w} bins: deredden != x - running {method}", one)
                     else:
                         ctx.nontrivial_case(one)
+                    if w < 202:   # below two 101-point blocks the documented "fast" variant does not decimate: it is the exact filter
+                        ctx.count("deredden_fast_exact_regime")
+                        gotf = np.asarray(ts.deredden(method=method, window=wsec, fast=True).data, dtype=np.float64)
+                        if gotf.shape != (n,) or not _close(gotf, want, np.abs(x64).max(), w):
+                            ctx.violation(f"deredden:{method}:fast-option", f"n={n} window={w} bins: deredden(fast=True) != x - running {method} although the window is too short to be decimated", one)
                 except Exception as exc:  # noqa: BLE001
                     ctx.violation(f"deredden-raised:{method}:{type(exc).__name__}@{exc_site(exc)}", f"n={n} w={w}: {fmt_exc(exc)}", one)
         for f in range(1, n + 1):
